@@ -7,9 +7,12 @@ calls they make to a user pool's `create_unit` / `free_unit` (for the legacy
 `ABT_pool_def` these are the wrappers around `u_create_from_thread` / `u_free`)
 and to the unit→thread table (Model.UnitMap).
 
-A work unit's `unit` field is NULL (no association; set by unset when error checks
-are enabled), the built-in handle `p_thread | 1`, or a handle returned by a user
-pool.  `ABTI_unit_is_builtin` tests bit 0, so NULL counts as *not* built-in.
+A work unit's `unit` field is `ABT_UNIT_NULL` (no association; set by unset when error
+checks are enabled), the built-in handle `p_thread | 1`, or a handle returned by a user
+pool.  `ABTI_unit_is_builtin` tests bit 0: in this build `ABT_UNIT_NULL` is `0x7`, so a
+NULL unit is taken for a built-in handle (`nullBuiltin = true`); with `ABT_NULL == 1` it
+is `NULL` and taken for a user handle.  Both are outside the contract of the operations
+below (a work unit without association is only created or freed).
 Every call of `create_unit` / `free_unit` and every hand-over of a unit to a user
 pool function is logged (newest first).  What the user's `create_unit` returns and
 whether the table's `malloc` succeeds are inputs of each operation.
@@ -30,7 +33,7 @@ structure Thr where
 deriving Repr, DecidableEq
 
 inductive Ev where
-  | create (p t : Nat) (u : UInt64)   -- `p_create_unit(pool p, thread t)` returned `u` (0 = ABT_UNIT_NULL)
+  | create (p t : Nat) (u : UInt64)   -- `p_create_unit(pool p, thread t)` returned `u` (`nul` = ABT_UNIT_NULL)
   | free (p : Nat) (u : UInt64)       -- `p_free_unit(pool p, u)`
   | use (p : Nat) (u : UInt64)        -- `u` handed to a function of user pool `p` (push, remove, is_in_pool, …)
 deriving Repr, DecidableEq
@@ -43,17 +46,19 @@ structure St where
   thr : Nat → Thr
   map : UM
   isBuiltin : Nat → Bool
+  nullBuiltin : Bool          -- bit 0 of `ABT_UNIT_NULL`
   log : List Ev
 
-def St.init (exp : Nat) (isBuiltin : Nat → Bool) : St :=
-  { thr := fun _ => ⟨.null, none⟩, map := empty exp, isBuiltin := isBuiltin, log := [] }
+def St.init (exp : Nat) (nul : UInt64) (isBuiltin : Nat → Bool) : St :=
+  { thr := fun _ => ⟨.null, none⟩, map := empty exp nul, isBuiltin := isBuiltin,
+    nullBuiltin := nul &&& 1 != 0, log := [] }
 
 def updT (f : Nat → Thr) (t : Nat) (v : Thr) : Nat → Thr := fun x => if x = t then v else f x
 
 /-- the common sequence `create_unit; if NULL fail; map; if failed free_unit, fail` -/
 def newUserUnit (s : St) (t p : Nat) (nu : UInt64) (mem : Bool) : St × Rc :=
   let s1 := { s with log := .create p t nu :: s.log }
-  if nu = 0 then (s1, .other)
+  if nu = s.map.nul then (s1, .other)
   else match mapThread s1.map nu t mem with
     | none => ({ s1 with log := .free p nu :: s1.log }, .mem)
     | some m' => ({ s1 with map := m' }, .ok)
@@ -68,7 +73,12 @@ def setAssocCore (s : St) (t : Nat) (unit : URef) (p : Nat) (nu : UInt64) (mem :
     else
       let (s1, rc) := newUserUnit s t p nu mem
       if rc = .ok then some ({ s1 with thr := updT s1.thr t ⟨.user nu, some p⟩ }, .ok) else some (s1, rc)
-  | .null => none      -- not built-in: the code would unmap ABT_UNIT_NULL (outside the contract)
+  | .null =>
+    -- outside the contract.  `nullBuiltin`: taken for the built-in handle of a bogus descriptor
+    -- (the pool is recorded, the unit stays NULL); otherwise the code would unmap ABT_UNIT_NULL
+    if s.nullBuiltin && s.isBuiltin p then
+      some ({ s with thr := updT s.thr t { (s.thr t) with pool := some p } }, .ok)
+    else none
   | .user u =>
     match (s.thr t).pool with
     | none => none     -- `p_thread->p_pool` is NULL: dereferenced for `free_unit`
@@ -115,7 +125,7 @@ def initPool (s : St) (t p : Nat) (nu : UInt64) (mem : Bool) : St × Rc :=
 def unsetAssoc (s : St) (t : Nat) : Option St :=
   match (s.thr t).unit with
   | .builtin _ => some { s with thr := updT s.thr t ⟨.null, none⟩ }
-  | .null => none
+  | .null => if s.nullBuiltin then some s else none
   | .user u =>
     match (s.thr t).pool, unmapThread s.map u with
     | some oldp, some m' =>
@@ -165,19 +175,19 @@ def runOps (s : St) : List Op → Option (St × List Out)
 /-! ### reading the event log (newest first) -/
 
 /-- is unit `u` of pool `p` live (created, not yet freed) after this log? -/
-def liveL : List Ev → UInt64 → Nat → Bool
+def liveL (z : UInt64) : List Ev → UInt64 → Nat → Bool
   | [], _, _ => false
-  | .create p' _ u' :: r, u, p => if u' = u ∧ p' = p ∧ u ≠ 0 then true else liveL r u p
-  | .free p' u' :: r, u, p => if u' = u ∧ p' = p then false else liveL r u p
-  | .use _ _ :: r, u, p => liveL r u p
+  | .create p' _ u' :: r, u, p => if u' = u ∧ p' = p ∧ u ≠ z then true else liveL z r u p
+  | .free p' u' :: r, u, p => if u' = u ∧ p' = p then false else liveL z r u p
+  | .use _ _ :: r, u, p => liveL z r u p
 
 /-- every `create_unit` result is a unit that is not live, every `free_unit` and every use
 concerns a live unit -/
-def LogOK : List Ev → Prop
+def LogOK (z : UInt64) : List Ev → Prop
   | [] => True
-  | .create p _ u :: r => (u ≠ 0 → liveL r u p = false) ∧ LogOK r
-  | .free p u :: r => liveL r u p = true ∧ LogOK r
-  | .use p u :: r => liveL r u p = true ∧ LogOK r
+  | .create p _ u :: r => (u ≠ z → liveL z r u p = false) ∧ LogOK z r
+  | .free p u :: r => liveL z r u p = true ∧ LogOK z r
+  | .use p u :: r => liveL z r u p = true ∧ LogOK z r
 
 def creates : List Ev → UInt64 → Nat → Nat
   | [], _, _ => 0
